@@ -196,7 +196,9 @@ def spellings(seed, rng, n):
                 choices = [' ', '  ', '\t', '\n', ' \n ', '\r\n'] if alnum_edge(prev, t) else ['', ' ', '  ', '\t', '\n', '\r\n']
                 gap = choices[mode] if mode != 6 else rng.choice(choices)
             parts.append(gap + tt)
-        out.append(''.join(parts))
+        # whitespace after the last token is whitespace too (a formula typed with a trailing blank or line break)
+        tail = ['', ' ', '', '\n', '', '  ', ' \t'][mode] if mode != 6 else rng.choice(['', ' ', '\n'])
+        out.append(''.join(parts) + tail)
     return canon, out
 
 
